@@ -16,6 +16,7 @@ FILES = {
     "init": "__init__.py",
     "requests_hook": "interceptor/hooks/requests.py",
     "tornado_hook": "interceptor/hooks/tornado.py",
+    "aiohttp_hook": "interceptor/hooks/aiohttp.py",
 }
 PROP = "C19"
 obs = []
@@ -732,6 +733,22 @@ def r8(mods):
                   f"the configured block list is bound to the block-list parameter and the allow list to the allow-list parameter ({bound})")
 
 
+    # every hook asks the traffic filter about the host as a string (a URL without a host gives
+    # None: the filter's string operations must see "None", which is simply not allowed, not raise
+    # inside the application's call)
+    n = 0
+    for key in ("requests_hook", "aiohttp_hook", "tornado_hook"):
+        htree, hpath = mods[key]
+        for c in ast.walk(htree):
+            if isinstance(c, ast.Call) and isinstance(c.func, ast.Attribute) and c.func.attr == "is_allowed" and src(c.func.value) == "self._traffic_filter":
+                n += 1
+                a0 = c.args[0] if c.args else None
+                ok = isinstance(a0, ast.Call) and src(a0.func) == "str" and len(a0.args) == 1 and src(a0.args[0]).endswith(".host") and len(c.args) == 2
+                check(ok, "R6", f"wiring/{key}/is_allowed-gets-the-host-as-str", loc(hpath, c),
+                      f"is_allowed(str(<url>.host), <headers>) (found {src(c)[:90]})")
+    check(n == 3, "R6", "wiring/hooks-consult-the-traffic-filter", "-", f"each of the three hooks consults the traffic filter once ({n} calls)")
+
+
 TABLE_FUNCS = [
     ("traffic_filter", "TrafficFilter", "is_allowed"),
     ("traffic_filter", "TrafficFilter", "_check_if_host_or_ip_is_allowed"),
@@ -741,6 +758,7 @@ TABLE_FUNCS = [
     ("traffic_filter", "TrafficFilter", "_is_external"),
     ("traffic_filter", "TrafficFilter", "is_access_list_valid"),
     ("traffic_filter", "TrafficFilter", "_validate_ip"),
+    ("traffic_filter", "TrafficFilter", "_validate_host"),
     ("traffic_filter", "TrafficFilter", "_is_external_ip"),
     ("traffic_filter", "TrafficFilter", "_is_external_domain"),
     ("fail_safe", "FailSafe", "__exit__"),
